@@ -63,7 +63,21 @@ def run_erg(erg, env, text, d, name):
     if rc != 0:
         m = re.findall(r"(\w+Error)", err + out)
         kind = ",".join(sorted(set(m)))
+        # failure signatures used to attribute a changed verdict to a recorded finding (kept out of the compared error kinds)
+        if "co_varnames is too small" in err + out:
+            kind += "|sig:co_varnames-too-small"
+        if "before its definition" in err + out:
+            kind += "|sig:use-before-definition"
     return rc, out, kind
+
+
+def run_erg_raw(erg, env, text, d):
+    """compiler diagnostics of `text`, colour codes removed"""
+    p = os.path.join(d, "raw.er")
+    with open(p, "w", encoding="utf-8") as f:
+        f.write(text)
+    rc, out, err = core.sh([erg, "check", p], env=env, timeout=120, cwd=d)
+    return re.sub(r"\x1b\[[0-9;]*m", "", err + out)
 
 
 def idents(text):
@@ -130,6 +144,19 @@ def post(ctx, rows, res, bindir):
             if clash and (base[0] == 0) != (got[0] == 0):
                 out.append(("clash", b))
                 continue
+            if base[0] != 0 and got[0] == 0 and "sig:co_varnames-too-small" in base[2]:
+                # class of C30-original-invalid-code-object: the ORIGINAL passes `erg check` and the code generator then emits a code
+                # object the interpreter refuses to build; renaming one of the two same-named parameters repairs the program
+                rc_chk, _, _ = core.sh([erg, "check", os.path.join(d, "orig.er")], env=env, timeout=120, cwd=d)
+                if rc_chk == 0:
+                    out.append(("known", b, "C30-original-invalid-code-object"))
+                    continue
+            if base[0] != 0 and got[0] == 0 and "sig:use-before-definition" in base[2] and \
+                    re.search(r"cannot access \S*%s\S* before its definition" % re.escape(old), run_erg_raw(erg, env, src, d)):
+                # class of C30-use-before-definition-left-behind: the original is rejected because a local is used before its definition;
+                # the edit for that local leaves the early use alone, which then resolves to an outer binding and the program is accepted
+                out.append(("known", b, "C30-use-before-definition-left-behind"))
+                continue
             if (base[0] == 0) != (got[0] == 0):
                 problems.append("verdict changed: original rc=%d, edited rc=%d (%s)" % (base[0], got[0], got[2]))
             elif base[0] == 0 and base[1] != got[1]:
@@ -147,11 +174,15 @@ def post(ctx, rows, res, bindir):
     with concurrent.futures.ThreadPoolExecutor(max_workers=8) as ex:
         results = list(ex.map(one, work))
     clash_rows = []
+    known_rows = {}
     for r, src, base, out in results:
         stats["original_ok" if base[0] == 0 else "original_rejected"] += 1
         for o in out:
             if o[0] == "skip":
                 stats["skipped_known_class_binders"] += 1
+                continue
+            if o[0] == "known":
+                known_rows.setdefault(o[2], []).append(r[0])
                 continue
             if o[0] == "clash":
                 stats["original_unbound_local"] = stats.get("original_unbound_local", 0) + 1
@@ -167,6 +198,13 @@ def post(ctx, rows, res, bindir):
                 ctx.print_known(e, f"{e['summary']} [witness still fails as recorded; {len(set(clash_rows))} program(s) of this class in this run]")
             else:
                 ctx.print_known(e, f"{e['summary']} [{len(set(clash_rows))} program(s) of this class in this run]")
+    listed = {e["id"]: e for e in ctx.known_findings()}
+    for fid, rows_ in sorted(known_rows.items()):
+        if fid in listed:
+            ctx.print_known(listed[fid], f"{listed[fid]['summary']} [{len(set(rows_))} program(s) of this class in this run]")
+            stats["known_class_" + fid] = len(rows_)
+        else:
+            ctx.violation({"kind": "renamed-program-differs", "what": f"class {fid} is not (or no longer) listed", "cases": rows_[:10]})
     if clash_rows and not any(e["id"] == "C30-original-unbound-local" for e in ctx.known_findings()):
         ctx.violation({"kind": "renamed-program-differs", "what": "original dies with UnboundLocalError, renamed program runs", "cases": clash_rows})
     ctx.cov["behaviour_check"] = stats
